@@ -191,6 +191,8 @@ pub enum Expr {
     FromUnix { e: Box<Expr>, conn: Option<String>, zone: Option<(String, i32)> },
     /// "<date> at <time or hour>"
     At { d: Box<Expr>, t: Box<Expr> },
+    /// "<number> <unit word>" where the number is an expression (a name holding a number): that quantity
+    UnitOf { e: Box<Expr>, word: String, family: String, index: usize },
 }
 
 #[derive(Debug, Clone, PartialEq, Serialize, Deserialize)]
@@ -280,6 +282,7 @@ pub fn render_expr(e: &Expr, f: &Fmt) -> String {
             }
         }
         Expr::At { d, t } => format!("{} at {}", render_expr(d, f), render_expr(t, f)),
+        Expr::UnitOf { e, word, .. } => format!("{} {}", render_expr(e, f), word),
     }
 }
 
